@@ -89,14 +89,14 @@ def parse_smtlib(text: str):  # noqa: C901
                 cur_expr = None
 
         # Identifier
-        elif char not in (' ', '\t', '\n'):
+        elif char not in (' ', '\t', '\n', '\r'):
             token = [char]
             while True:
                 if pos >= size:
                     return
                 char = text[pos]
                 pos += 1
-                if char in (' ', '\t', '\n'):
+                if char in (' ', '\t', '\n', '\r'):
                     break
                 if char in ('(', ')', ';'):
                     pos -= 1
